@@ -483,6 +483,23 @@ func (s *c03) read() (string, string) {
 					}
 				} else if err != nil || len(ch) != 1 || crdt.Canon(ch[0].GetValue()) != crdt.Canon(x[pos]) {
 					sig, msg = "read:doc-elem", fmt.Sprintf("GetManyFromArray(%d,1) at %v err=%v", pos, path, err)
+				} else if cnt := 2 + r.Intn(3); true {
+					// a proper range: every element in its place, an overrun refused
+					many, err := d.GetManyFromArray(pos, cnt)
+					if pos+cnt > n {
+						if err == nil {
+							sig, msg = "read:doc-range-accepted", fmt.Sprintf("GetManyFromArray(%d,%d) on an array of %d at %v returned no error", pos, cnt, n, path)
+						}
+					} else if err != nil || len(many) != cnt {
+						sig, msg = "read:doc-range", fmt.Sprintf("GetManyFromArray(%d,%d) at %v returned %d documents, err=%v", pos, cnt, path, len(many), err)
+					} else {
+						for i, m := range many {
+							if m == nil || crdt.Canon(m.GetValue()) != crdt.Canon(x[pos+i]) {
+								sig, msg = "read:doc-range", fmt.Sprintf("GetManyFromArray(%d,%d) at %v: element %d is %s, the array holds %s there", pos, cnt, path, i, clip(crdt.Canon(docValue(m)), 200), clip(crdt.Canon(x[pos+i]), 200))
+								break
+							}
+						}
+					}
 				}
 			}
 		}
@@ -714,4 +731,11 @@ func runC03(c *core.Case) *core.Result {
 	}
 	c.Count("sequences_"+typ, 1)
 	return c.Held()
+}
+
+func docValue(d orda.Document) interface{} {
+	if d == nil {
+		return nil
+	}
+	return d.GetValue()
 }
